@@ -110,13 +110,18 @@ fn gen_value(rng: &mut Rng, max: usize) -> Vec<u8> {
     while v.last() == Some(&b' ') {
         v.pop();
     }
-    // a value ending in LF would merge with the CRLF into something else; keep the grammar
-    while v.last() == Some(&b'\n') || v.first() == Some(&b'\n') {
-        if v.last() == Some(&b'\n') {
-            v.pop();
-        } else {
-            v.remove(0);
-        }
+    // a fold at an EDGE of the value: the whole value on the continuation line (`X:\n    text`), or a fold with
+    // nothing but blanks behind it — the bare LF becomes a blank like any other, and surrounding blanks are
+    // not part of the value (seed C04-seed10: trimmed before the LF was turned into a blank)
+    if !v.is_empty() && rng.chance(1, 8) {
+        let mut w = vec![b'\n'];
+        w.extend(std::iter::repeat(b' ').take(rng.below(5) as usize));
+        w.extend_from_slice(&v);
+        v = w;
+    }
+    if !v.is_empty() && v.last() != Some(&b'\r') && rng.chance(1, 8) {
+        v.extend(std::iter::repeat(b' ').take(rng.below(3) as usize));
+        v.push(b'\n');
     }
     v
 }
